@@ -270,7 +270,12 @@ func (p *pkgOverlay) entriesSource() []byte {
 	fmt.Fprintf(&sb, "package %s\n\nvar verifEntries = map[string]func(){\n", p.PkgName)
 	es := append([]string{}, p.Entries...)
 	sort.Strings(es)
+	last := ""
 	for _, e := range es {
+		if e == last {
+			continue
+		}
+		last = e
 		fmt.Fprintf(&sb, "\t%q: %s,\n", e, e)
 	}
 	sb.WriteString("}\n")
